@@ -19,7 +19,8 @@ Relevant files: {', '.join(p['anchors']['files'])}
 Requirements for each change:
 1. It is a small, plausible edit to library source under {wt}/rdflib (the kind of thing a refactoring, an "optimisation" or a careless bug-fix would introduce) — NOT an edit to tests, and not something ordinary use would expose at once. Prefer changes that need something specific to manifest: an unusual input (e.g. a falsy term such as Literal(0) or Literal(""), an empty graph, a blank-node-named graph), a multi-step sequence of operations, a particular interleaving of an open iterator with mutations, or two cooperating sites that each look fine alone.
 2. The library still imports, and the existing tests still pass with the change. Run the relevant test modules first, then the whole suite ONCE per change from the worktree root:
-     cd {wt} && PYTHONPATH={wt} /venv/bin/python -m pytest -q -p no:cacheprovider --timeout=900 -x -q 2>&1 | tail -5
+     cd {wt} && PYTHONPATH={wt} /venv/bin/python -m pytest -q -p no:cacheprovider --timeout=900 -q 2>&1 | tail -30
+   NOTE: on the UNCHANGED code 24 tests already fail in this sandbox (no network: test_service*, jsonld remote, infixowl, test_plugins, rdflib/__init__ doctest, ...) and the suite takes ~3.5 minutes; so run it WITHOUT -x and compare the set of FAILED test ids with a run on the unchanged code (a ready list of the baseline failures can be produced once with the same command on a clean tree). Do NOT use `git stash` (the stash is shared between all worktrees of /repo and other agents are working in parallel); use `git diff > file`, `git checkout -- .`, `git apply file` instead.
    (PYTHONPATH makes the worktree's rdflib the one imported; verify with PYTHONPATH={wt} /venv/bin/python -c "import rdflib; print(rdflib.__file__)"). A change that makes any previously passing test fail is not acceptable; pick another.
 3. A demonstration: a small standalone python program demo.py (run as: cd {wt} && PYTHONPATH={wt} /venv/bin/python <path>/demo.py — the PYTHONPATH is essential, otherwise /repo's rdflib is imported; have demo.py print rdflib.__file__ ) that exits 0 on the unchanged code and exits non-zero (assertion failure printing what went wrong) with your change applied. The demo must test the PROPERTY as stated (observable API behaviour), not implementation details. Check both directions yourself (git stash / git stash pop, or git diff > patch; git checkout -- . ; run; git apply patch; run).
 4. NOTE: the unchanged library may already violate the property for some inputs; your demo must pass on the unchanged code, so pick behaviour that is currently correct and that your change breaks.
